@@ -367,8 +367,9 @@ class NetworkGraph(AbstractBaseIR):
         data = dict()
         for source_node, target, idx in edges:
             edge = self.edges[(source_node, target, idx)]
-            # edges are grouped per source variable: different variables of one source node are separate inputs
-            source = (source_node, edge.get('source_var'))
+            # edges are grouped per source variable: different variables of one source node are separate inputs, and
+            # so is every matrix/global (Connectivity) edge, whose weight array cannot be bundled with other weights
+            source = (source_node, edge.get('source_var'), idx if isinstance(edge.get('weight'), np.ndarray) else None)
             if source not in data:
                 data[source] = dict()
             for key in keys:
@@ -727,7 +728,7 @@ class NetworkGraph(AbstractBaseIR):
         # step 1: collect all inputs
         weights, source_indices, target_indices, sources = [], [], [], []
         edge_irs, edge_var_maps = [], []
-        for (snode, _), sinfo in inputs.items():
+        for (snode, *_), sinfo in inputs.items():
             weights.append(sinfo['weight'])
             source_indices.append(sinfo['source_idx'])
             target_indices.append(sinfo['target_idx'])
@@ -740,6 +741,7 @@ class NetworkGraph(AbstractBaseIR):
         eqs, in_vars = [], []
         covered = set()  # entries of a vectorized target variable that receive at least one edge
         names = {tvar}  # names that are taken inside the edge operator
+        source_names = {}  # source variables that are already an operand of the edge operator
         for i, (weight, sidx, tidx, (snode, sop, svar), edge_ir, edge_var_map) in \
                 enumerate(zip(weights, source_indices, target_indices, sources, edge_irs, edge_var_maps)):
 
@@ -769,6 +771,9 @@ class NetworkGraph(AbstractBaseIR):
                 names.add(name)
                 operands.append(name)
             t_str, w_str, s_str, sidx_str, tidx_str = operands if multiple_inputs else [tvar] + operands
+
+            # several connections that read the same source variable share one operand for it
+            s_str = source_names.setdefault((snode, sop, svar), s_str)
 
             # case 0g: global edge — weight is a 0-d (scalar) array (used by
             # Connectivity for uniform all-to-all coupling). Realized as a reduction
@@ -839,8 +844,9 @@ class NetworkGraph(AbstractBaseIR):
                         else:
                             post_var = info['var']
                             post_op = info['op']
-                            expr_map[ev] = f'broadcast_post({post_var})'
-                            source_vars[post_var] = {'sources': [post_op], 'node': tnode, 'var': post_var}
+                            post_str = source_names.setdefault((tnode, post_op, post_var), post_var)
+                            expr_map[ev] = f'broadcast_post({post_str})'
+                            source_vars[post_str] = {'sources': [post_op], 'node': tnode, 'var': post_var}
 
                     if edge_de_sv_names:
                         # case 0c: dynamic edge
